@@ -36,5 +36,18 @@ fn generate(rng: &mut Rng, n: usize, tier: &str, out: &mut dyn Write) {
             t.extend(cont.iter().map(|s| s.to_string()));
             writeln!(out, "enum {} {}", i, t.join(" ")).unwrap();
         }
+        // one scenario WITH step logs: an error somewhere in an operation, then operations that
+        // allocate pages and append to the log (memory may be ahead of the files after the error),
+        // a reopen and the content
+        let mut t: Vec<String> = h.clone();
+        let pos = 1 + rng.below(h.len() as u64 - 1) as usize;
+        t.insert(pos, format!("F{}", rng.below(45)));
+        if t.last().map(|s| s.as_str()) == Some("close") {
+            t.push("open".into());
+        }
+        for s in ["t1.1.1", "compact", "t1.0.1", "compact", "dump", "drop", "open", "dump"] {
+            t.push(s.to_string());
+        }
+        writeln!(out, "scen {}", t.join(" ")).unwrap();
     }
 }
